@@ -51,6 +51,9 @@ var zzvC10Classes = []struct {
 	{"bytes", 24, "\x00\n\xff"},
 	{"0B", 0, ""},       // outside the format's name range: must be refused, leaving the file conformant
 	{"4097B", 4097, "n"}, // likewise
+	// two spellings of one stack (the second abbreviates the repeated import path): distinct names in the
+	// file that decode to the same name
+	{"alias", -1, ""},
 }
 
 // zzvC10Name returns the seq-th distinct name of a class.
@@ -58,6 +61,12 @@ func zzvC10Name(class, seq int) string {
 	c := zzvC10Classes[class]
 	if c.n == 0 {
 		return ""
+	}
+	if c.n < 0 {
+		if seq%2 == 0 {
+			return fmt.Sprintf("stk%d\npkg/a.f:+1,+0x10\npkg/a.g:+2,+0x20", seq/2)
+		}
+		return fmt.Sprintf("stk%d\npkg/a.f:+1,+0x10\n\".g:+2,+0x20", seq/2)
 	}
 	if c.n == 1 {
 		return string(rune('a' + seq%26))
@@ -244,8 +253,16 @@ func zzvC10Check(res *vrep.Result, hist []zzvC10Op, data []byte, m *zzvC10Model,
 	if perr != nil {
 		fail("library-rejects-own-file", "Parse: %v", perr)
 	} else {
+		// The library's map is keyed by the decoded name; names that decode alike count the same stack.
+		want := map[string]uint64{}
 		for n, v := range m.values {
-			if pf.Count[DecodeStack(n)] != v {
+			want[ref.ExpandStack(n)] += v
+		}
+		if len(want) != len(pf.Count) {
+			fail("library-readback-differs", "Parse returns %d counters, %d distinct decoded names were written", len(pf.Count), len(want))
+		}
+		for n, v := range want {
+			if pf.Count[n] != v {
 				fail("library-readback-differs", "counter %q: Parse reads %d, written %d", zzvShort(n), pf.Count[n], v)
 				break
 			}
@@ -279,7 +296,7 @@ func TestVerifC10(t *testing.T) {
 	defer res.Guard()
 	base, cleanup := vrep.Scratch("c10")
 	defer cleanup()
-	res.Rule = "(a) every (32-aligned limit in two page periods, name length 1..4096) pair through the real place(); (b) breadth-first search over operation sequences {new counter of 8 name classes, add to existing, two concurrent writers} with a fresh emulated process per operation, each state decoded strictly by the reference decoder, compared with the model and byte-for-byte with the reference writer; classes = distinct (pages, records) shapes and placement outcomes"
+	res.Rule = "(a) every (32-aligned limit in two page periods, name length 1..4096) pair through the real place(); (b) breadth-first search over operation sequences {new counter of 11 name classes (lengths 0..4097, arbitrary bytes, two spellings of one stack), add to existing, two concurrent writers} with a fresh emulated process per operation, each state decoded strictly by the reference decoder, compared with the model and byte-for-byte with the reference writer; classes = distinct (pages, records) shapes and placement outcomes"
 	res.Assumptions = []string{"reference codec engine/ref/counterfile.go written from the documented layout", "little-endian host"}
 	if p.Replay != "" {
 		fmt.Println("C10 replay: the artefact's history is a deterministic operation list; re-run the quick check")
